@@ -12,7 +12,7 @@
 From Coq Require Import String Ascii.
 From Coq Require Import List ZArith Bool.
 From TskVerif Require Import Base.Common Gen.Generated C17.Model C17.B64Proofs C17.TsvProofs
-  C17.OrderProofs C17.RoundtripProofs C17.DecProofs C17.ExtraProofs C17.WsProofs C17.LoadTextProofs.
+  C17.OrderProofs C17.RoundtripProofs C17.DecProofs C17.ExtraProofs C17.WsProofs C17.LoadTextProofs C17.Injective.
 From Coq Require Import Permutation Sorting.Sorted.
 Import ListNotations.
 Open Scope Z_scope.
@@ -281,3 +281,20 @@ Theorem load_text_forwards_to_every_parser :
      "populations:strict=strict,encoding=encoding,base64_metadata=base64_metadata,table=tc.populations";
      "sites:strict=strict,encoding=encoding,base64_metadata=base64_metadata,table=tc.sites"]%string.
 Proof. exact load_text_forwards. Qed.
+
+(* ---- injectivity: no two different contents share one text dump (corollaries of the
+   round trips above) ---- *)
+Theorem b64_injective : forall a b : bytes,
+  Forall (fun x => 0 <= x < 256) a -> Forall (fun x => 0 <= x < 256) b ->
+  b64encode a = b64encode b -> a = b.
+Proof. exact b64_injective_proof. Qed.
+
+Theorem tsv_row_injective : forall sep (f1 f2 : list bytes),
+  f1 <> [] -> f2 <> [] -> Forall (fun f => ~ In sep f) f1 -> Forall (fun f => ~ In sep f) f2 ->
+  join_with sep f1 = join_with sep f2 -> f1 = f2.
+Proof. exact tsv_row_injective_proof. Qed.
+
+Theorem file_lines_injective : forall l1 l2 : list bytes,
+  Forall (fun l => ~ In NL l) l1 -> Forall (fun l => ~ In NL l) l2 ->
+  unlines l1 = unlines l2 -> l1 = l2.
+Proof. exact file_lines_injective_proof. Qed.
